@@ -6,6 +6,7 @@ from __future__ import annotations
 import itertools
 
 import z3
+import z3 as z3  # noqa: F811
 from z3 import And, BoolVal, Const, Exists, ForAll, Function, If, Implies, IntVal, Not, Or
 
 I = z3.IntSort()
@@ -260,6 +261,33 @@ WF_INDEX = ("I1", "I2")
 WF_PROP = {"S1": "C01", "S2": "C01", "S3": "C01", "S4": "C01", "S5": "C01", "S6": "C01", "S6r": "C01", "K": "C01", "I1": "C01", "I2": "C02", "U": "C03"}
 
 
+CTRL = ("SkipBranch", "SelectBranch", "StopTraversal", "StopIteration")
+exc_value = Function("exc_value", Val, Val)  # .value of an exception instance held as opaque value
+exc_and_self = Function("exc_and_self", Val, Val)
+
+
+def clsobj(name: str):
+    return Const(f"clsobj!{name}", Val)
+
+
+def exc_pred(name: str):
+    """v is an *instance* of exception class `name` (exact class for the control classes)."""
+    return Function(f"val_is_exc_{name}", Val, B)
+
+
+def ctrl_axioms():
+    """Opaque callback results that are control classes / instances (DESIGN §3.2 'User callbacks')."""
+    v = Const("v!ctl", Val)
+    out = [z3.Distinct(*[clsobj(n) for n in CTRL])]
+    for n in CTRL:
+        c = clsobj(n)
+        out += [Not(v_is_int(c)), Not(v_is_str(c)), c != VNONE, v_truthy(c)]
+        out.append(ForAll([v], Implies(exc_pred(n)(v), And(Not(v_is_int(v)), Not(v_is_str(v)), v != VNONE, v_truthy(v), *[v != clsobj(m) for m in CTRL], *[Not(exc_pred(m)(v)) for m in CTRL if m != n])), patterns=[exc_pred(n)(v)]))
+        for m in CTRL:
+            out.append(Not(exc_pred(m)(c)))
+    return out
+
+
 def oracle_fn(sig: str):
     """Uninterpreted pure function standing for a user callback with argument kinds `sig`
     ('r' = object reference, 'v' = value): oracle(callback value, args...) -> Val."""
@@ -286,4 +314,4 @@ def upk(h: Heap):
 
 
 def prelude():
-    return val_axioms() + seq_axioms() + SPEC_AXIOMS
+    return val_axioms() + seq_axioms() + ctrl_axioms() + SPEC_AXIOMS
